@@ -26,6 +26,7 @@ macro_rules! dispatch {
             "C07" => $f(worlds::agenda::AgendaWorld, $($arg),*),
             "C06" => $f(worlds::rete::ReteWorld, $($arg),*),
             "C02" => $f(worlds::fwd::FwdWorld, $($arg),*),
+            "C09" | "C10" | "C11" => $f(worlds::bwd::BwdWorld, $($arg),*),
             other => {
                 eprintln!("no simulation world serves property {other}");
                 2
